@@ -72,7 +72,7 @@ TVEnd == /\ l <= Len(Rec) /\ Rec[l].ev = "end"
 TVOther == /\ l <= Len(Rec) /\ Rec[l].ev = "threads" /\ l' = l + 1 /\ UNCHANGED <<quiet, lastOff, owed, eaten, wpc, wAtChange, script, late, viol, judged, cur, opq>>
 \* the process under test was killed by a signal while this case ran (recorded by the driver; `begin` marks the letter that
 \* was in progress): judged like any other observation -- whatever the property, an input that kills the process breaks it
-TVCrashAny == /\ l <= Len(Rec) /\ Rec[l].ev \in {"crash", "begin"}
+TVCrashAny == /\ l <= Len(Rec) /\ Rec[l].ev = "crash"
               /\ viol' = IF Rec[l].ev = "crash" THEN AddViol(viol, {"ANY/process-killed-by-signal-" \o Str(Rec[l].signal)}, Rec[l].id) ELSE viol
               /\ l' = l + 1 /\ UNCHANGED <<quiet, lastOff, owed, eaten, wpc, wAtChange, script, late, judged, cur, opq>>
 TVNext == TVReset \/ TVEvent \/ TVEnd \/ TVOther \/ TVCrashAny
